@@ -275,7 +275,8 @@ def run(chk: Check, tier: str):
     os.makedirs(os.path.join(BUILD, "traces"), exist_ok=True)
     # ---- the machine itself
     for plumb, cons, expect_violation in (("byIndex", True, False), ("byIndex", False, False), ("byText", True, True)):
-        cfg = tlc.cfg_text(invariants=["RowsOK", "NoLeak", "NeverRaiseIfCons", "AlwaysRaiseIfNot"], properties=["PrepMonotone"],
+        cfg = tlc.cfg_text(spec="FairSpec" if plumb == "byIndex" else "Spec", invariants=["RowsOK", "NoLeak", "NeverRaiseIfCons", "AlwaysRaiseIfNot"],
+                           properties=["PrepMonotone"] + (["CallTerminates"] if plumb == "byIndex" else []),
                            constants={"Plumbing": plumb, "MaxCalls": (2 if tier == "quick" else 3) if plumb == "byIndex" else 1, "MaxBatch": 2 if tier == "quick" else 3, "Keys": {0, 5, 7}, "Cons": cons})
         res = tlc.run("MC_Manager", cfg, f"C13_mc_{plumb}_{cons}", timeout=3000)
         if expect_violation:
